@@ -10,7 +10,8 @@ RULE = ("trees with 1-3 groups (sizes 2-4), hard-link sets, symlinks reported wi
         "same / other directory), two roots with --isolate in both orders, decoy files of equal length at neighbouring "
         "names, hostile file names (leading/trailing whitespace of several kinds, quotes, backslash, newline, CR, tab, "
         "non-UTF-8, '#', '~', '$'); x report format {text, JSON} x op {remove, link, link --soft, dedupe, move} x "
-        "-n {unset, 2} x --priority {unset, bottom, newest} x {no pattern, --name, --keep-name}; real runs. Oracle: "
+        "-n {unset, 2} x --priority {unset, bottom, newest} x {no pattern, --name, --keep-name}; `move` also into a target "
+        "directory that already holds files at the destination paths; real runs. Oracle: "
         "inventory before/after (lstat + sha256, never through fclones): no content digest disappears from regular "
         "files (tree + move target); >= max(1,n) replicas per group completely untouched; nothing outside the reported "
         "groups changes; link/clone ops keep every path readable with the same bytes; move keeps the bytes under the "
@@ -112,6 +113,11 @@ def cases(tier, seed):
                         continue
                     out.append({"tree": tname, "roots": roots, "gargs": gargs, "entries": entries, "fmt": fmt, "op": op,
                                 "n": n, "prio": prio, "pat": pat})
+                    if op == "move" and (idx % 3 == 0 or (n is None and prio is None and pat is None)):
+                        # the target directory already holds files at the paths the moved files would get
+                        # (e.g. a second `move` into the same archive): they are outsiders with unique content
+                        out.append({"tree": tname, "roots": roots, "gargs": gargs, "entries": entries, "fmt": fmt,
+                                    "op": op, "n": n, "prio": prio, "pat": pat, "prepop": True})
     return out
 
 
@@ -151,7 +157,16 @@ def evaluate(case):
             dargs += ["--name", "[ab]*"]
         elif case["pat"] == "keep":
             dargs += ["--keep-name", "[abA]*"]
-        before = C.inventory(sc.tree)
+        if case.get("prepop"):
+            k = 0
+            for g in rep.groups:
+                for p in g["paths"]:
+                    tp = C.b(target) + p
+                    os.makedirs(os.path.dirname(tp), exist_ok=True)
+                    with open(tp, "wb") as f:
+                        f.write(b"archived earlier, unique content %d" % k)
+                    k += 1
+        before = C.inventory(sc.tree, target) if os.path.exists(target) else C.inventory(sc.tree)
         # readable content of every path before (through links)
         content_before = {}
         for p, r in before.items():
@@ -228,12 +243,13 @@ def evaluate(case):
         # (e) move: bytes under the target
         if case["op"] == "move":
             for p, rec in before.items():
-                if rec["type"] == "file" and p not in after:
+                if rec["type"] == "file" and p not in after and not p.startswith(target):
                     tp = target + p
                     a = after.get(tp)
                     if a is None or a.get("sha") != rec["sha"]:
                         viol.append(dict(feat, kind="moved_file_missing", detail="%r not found with the same bytes at %r" % (p, tp)))
-        changed = bool(C.inv_diff(before, {k: v for k, v in after.items() if not k.startswith(target)}))
+        changed = bool(C.inv_diff({k: v for k, v in before.items() if not k.startswith(target)},
+                                  {k: v for k, v in after.items() if not k.startswith(target)}))
     return {"violations": viol, "nontrivial": [case["tree"], case["fmt"], case["op"], case["n"], case["prio"], case["pat"]] if changed else None,
             "outcome": "changed" if changed else "unchanged",
             "sample": {"tree": case["tree"], "op": case["op"], "dedupe_args": dargs, "group_args": case["gargs"], "fmt": case["fmt"]}}
